@@ -208,7 +208,7 @@ add(
     "str.replace exact only where the remainder does not contain the prefix again, z3 4.8.12 string solver with valid lemma "
     "hints; two-folder create queries are thorough-tier and may be inconclusive. Concrete histories on real Project objects "
     "(latest-lookups after further runs, registry save onto an existing run, import_data, result names with a path separator) are "
-    "sampling, not solver verdicts; known finding runs:nested-result-name-renumbering (known_findings.json). " + COMMON_NOTE,
+    "sampling, not solver verdicts (names with a path separator or a dot: repaired by fix bf67d52, the scenario stays). " + COMMON_NOTE,
     "3/C18",
     "symbolic execution over a symbolic file system (symx) + AST->SMT string interpretation of the run-numbering source, z3",
 )
